@@ -848,6 +848,26 @@ func (r *runner) confirm(n *native) int {
 			res := n.run(h.Pkg, rj, "", 120*time.Second)
 			return natConfirms(res, v.V.Kind, v.V.Label)
 		}
+		// A failure that the deviant oracle of a recorded known finding explains is that finding, not a
+		// new violation: the symbolic attribution (re-run of the path under vrt.Known) can end
+		// inconclusive when the solver gives up; the native replay decides it then.
+		explained := ""
+		for _, key := range r.known {
+			kj := base
+			kj.Known = []string{key}
+			if res := n.run(h.Pkg, kj, "", 120*time.Second); res.outcome == "pass" {
+				explained = key
+				break
+			}
+		}
+		if explained != "" {
+			v.Status = "known:" + explained
+			r.matched[explained]++
+			if r.matchedSample[explained] == "" {
+				r.matchedSample[explained] = h.Name + " {" + it.String() + "} (native attribution)"
+			}
+			continue
+		}
 		ok := try(base)
 		final := base
 		if !ok {
